@@ -1,6 +1,7 @@
 SPECIFICATION Spec
 CONSTANTS
   MaxOps = 3
+  Vers = {1, 2}
   NIns = 1
 CHECK_DEADLOCK FALSE
 INVARIANT Idempotent
